@@ -221,6 +221,13 @@ class Ctx:
             time.sleep((10, 20, 40, 60, 90)[attempt])
             rc, log, dt = sh(["go", "build", "-tags", tags] + extra + ["-o", out, "./" + pkg], cwd=HARNESS,
                              env=go_env(), timeout=timeout)
+        if rc == 124:
+            # the build did not finish within the limit: on this code base that only happens on a machine that is
+            # overloaded or whose build cache was just emptied - the partial results are cached, so once more, with
+            # twice the time, before the tie counts as broken
+            self.count("harness-build.timeout-repeated")
+            rc, log, dt = sh(["go", "build", "-tags", tags] + extra + ["-o", out, "./" + pkg], cwd=HARNESS,
+                             env=go_env(), timeout=2 * timeout)
         self.log("go build ./%s rc=%d (%.1fs)" % (pkg, rc, dt))
         if rc != 0:
             self.harness_ok = False
